@@ -445,7 +445,7 @@ class KeywordSearches:
                 ele = NodeCoords.unwrap_node_coords(wrapped_ele)
                 next_path = translated_path + "[{}]".format(idx)
                 next_ancestry = ancestry + [(data, idx)]
-                if ele is not None and scan_node in ele:
+                if ele is not None and ele.get(scan_node) is not None:
                     eval_val = ele[scan_node]
                     if (match_value is None
                         or Searches.search_matches(
@@ -490,7 +490,7 @@ class KeywordSearches:
                         key, translated_path.separator))
                 next_ancestry = ancestry + [(data, key)]
                 if isinstance(val, dict):
-                    if val is not None and scan_node in val:
+                    if val is not None and val.get(scan_node) is not None:
                         eval_val = val[scan_node]
                         if (match_value is None
                             or Searches.search_matches(
@@ -652,7 +652,7 @@ class KeywordSearches:
                 ele = NodeCoords.unwrap_node_coords(wrapped_ele)
                 next_path = translated_path + "[{}]".format(idx)
                 next_ancestry = ancestry + [(data, idx)]
-                if ele is not None and scan_node in ele:
+                if ele is not None and ele.get(scan_node) is not None:
                     eval_val = ele[scan_node]
                     if (match_value is None
                         or Searches.search_matches(
@@ -697,7 +697,7 @@ class KeywordSearches:
                     translated_path + YAMLPath.escape_path_section(
                         key, translated_path.separator))
                 if isinstance(val, dict):
-                    if val is not None and scan_node in val:
+                    if val is not None and val.get(scan_node) is not None:
                         eval_val = val[scan_node]
                         if (match_value is None
                             or Searches.search_matches(
